@@ -35,5 +35,7 @@ mod c19;
 /// models were found faithful (fma, division, trunc, comparisons). Not `cfg(kani)`:
 /// it is differential-tested natively against `f64::rem_euclid` by `check setup`.
 pub mod rem_model;
+/// Exact integer model of `f64::rem_euclid` on short-significand lattices, any exponent gap.
+pub mod rem_lattice;
 /// Natively validated table of float operations for the Kani intrinsic-conformance harness.
 pub mod conf_table;
